@@ -284,6 +284,8 @@ class Fn:
             return f"({e} != 0)"
         if t == "QSet":
             return f"(!QSet.isEmpty {par(e)})"
+        if t in ("Opt:Bytes", "Opt:Str"):
+            return f"(Option.elim {par(e)} false (fun v => !List.isEmpty v))"      # None and the empty string are both falsy
         if t.startswith("Opt:"):
             return f"(Option.isSome {par(e)})"
         if t == "Q":
@@ -418,6 +420,17 @@ class Fn:
                 return self.fields(e, t, list(reversed(attrs)))
             return r
         if isinstance(node, ast.BoolOp):
+            if isinstance(node.op, ast.Or) and len(node.values) == 2 and self.t.get("value_or"):
+                # `a or b` used for its value (an optional byte string): a if it is truthy, else b
+                self.no_raise += 1
+                try:
+                    (a_, ta_), (b_, tb_) = self.expr(node.values[0], env), self.expr(node.values[1], env)
+                finally:
+                    self.no_raise -= 1
+                if ta_ == tb_ and ta_ in ("Opt:Bytes", "Opt:Str"):
+                    ind_ = lambda x: "   " + x.replace("\n", "\n    ")      # noqa: E731  (continuation lines right of the first `let`)
+                    return (f"((fun a => if {self.truthy('a', ta_)} then a else\n{ind_(b_)})\n{ind_(a_)})", ta_)
+                raise NotTranslatable("value `or` on these operands")
             op = " && " if isinstance(node.op, ast.And) else " || "
             parts = [self.cond(node.values[0], env)]
             for v in node.values[1:]:
@@ -1406,8 +1419,8 @@ class Fn:
         body = sub.block(list(fdef.body), dict(env2), end, 1)
         if raises_somewhere:
             # the function returns a plain value or raises: at the call, the exception propagates
-            return self.raising("(" + lets + body.strip() + ")", rt[4:])
-        return ("(" + lets + body.strip() + ")", rt)
+            return self.raising("(" + lets + textwrap.dedent(body).strip() + ")", rt[4:])
+        return ("(" + lets + textwrap.dedent(body).strip() + ")", rt)
 
     # ---------------------------------------------------------------- statements
     def ret(self, e, t):
